@@ -32,8 +32,7 @@ h_borrow_clone_arc!(c01_borrow_clone_arc__zst, Z, Z);
 // @h props=C01,C04 fuc=ArcBorrow::with_arc,Arc::clone,Arc::drop
 gproof! { fn c04_borrow_with_arc_callback() {
     let n = any_count();
-    kani::assume(n < isize::MAX as usize);
-    let a = mk(Tr8::new(), n);
+        let a = mk(Tr8::new(), n);
     let (b0, id, c0) = (base(&a), a.id, cw(&a));
     let b = a.borrow_arc();
     let keep: bool = kani::any();
@@ -69,8 +68,7 @@ gproof! { fn c11_borrow_from_ptr_roundtrip() {
 
 // @h props=C16 kind=panic site="abort" fuc=ArcBorrow::clone_arc
 gpanic! { fn c16_borrow_clone_arc_overflow_aborts() {
-    let n: usize = kani::any();
-    kani::assume(n > isize::MAX as usize);
+    let n = vrt::overflow_count();
     let a = mk(S1::any(), n);
     let c = a.borrow_arc().clone_arc();
     core::mem::forget(a);
@@ -79,8 +77,7 @@ gpanic! { fn c16_borrow_clone_arc_overflow_aborts() {
 
 // @h props=C16 kind=panic site="abort" fuc=ArcBorrow::with_arc,Arc::clone note="clone inside a borrow callback"
 gpanic! { fn c16_clone_inside_borrow_with_arc_overflow_aborts() {
-    let n: usize = kani::any();
-    kani::assume(n > isize::MAX as usize);
+    let n = vrt::overflow_count();
     let a = mk(S1::any(), n);
     a.borrow_arc().with_arc(|t| { let c = t.clone(); core::mem::forget(c); });
     core::mem::forget(a);
